@@ -1,3 +1,3 @@
 Require Import ExtrOcamlBasic.
 Require Import SGV.Kernel.MQueue.
-Extraction "c09_model.ml" run_c09 run_c09_oracle.
+Extraction "c09_model.ml" run_c09 run_c09_oracle run_c09x run_c09x_oracle.
